@@ -188,8 +188,136 @@ def drain (o : DOpts) : Nat → DB → DB
     | some s' => drain o n s'
     | none => s
 
+/-! #### Trace acceptance
+
+`exec` logs what the real loop was observed to do: `S|id|t` (a send about to be offered on the
+channel, in order), `P|value|t` (pushFn entered on the debounced path with a request reading
+`value`), `X` (that pushFn returns), `E|value` (pushFn entered on the bypass path), `U|n`
+(`updateSent` at the end).  `accept` builds, from the observed batches, a sequence of model events
+- the recvs in order, and the hidden `tick` / `timer` / `pushReturn` / `freeRecv` needed in between -
+and **runs it through `stepD`**: the trace is accepted only if every event is enabled and the run
+hands exactly the observed values to pushFn in the observed order (so: batching = in-order `Merge`
+from nil with the Reason default, a push only from a free loop after a wake-up, bypass iff
+`!enableEDSDebounce` and endpoints-only, committed count).  Physical time is used only in the sound
+direction: `pushWorker`'s own guard must hold for (time pushFn was entered) against (times the
+first / last event of the batch were *about to be* offered) - the loop never pushes early. -/
+
+def showSetO (o : Option (List String)) : String :=
+  match o with
+  | none => "nil"
+  | some l => encSet l
+
+def showViewCanon (v : View) : String :=
+  let r := match v.reason with
+    | none => "nil"
+    | some m => showRsn m
+  s!"c={showSetO v.configs};a={showSetO v.addrs};w={showSetO v.wps};r={r};p={showRef "p" v.push};f={boolTok v.forced}"
+
+inductive TEv
+  | send (id : Nat) (t : Nat) | push (val : String) (t : Nat) | ret | eds (val : String) | sent (n : Nat)
+
+def parseTEv (tok : String) : Option TEv :=
+  match tok.splitOn "|" with
+  | ["S", i, t] => match i.toNat?, t.toNat? with
+    | some i, some t => some (.send i t)
+    | _, _ => none
+  | ["P", v, t] => (t.toNat?).map (fun t => .push v t)
+  | ["X"] => some .ret
+  | ["E", v] => some (.eds v)
+  | ["U", n] => (n.toNat?).map .sent
+  | _ => none
+
+def stepE (o : DOpts) (s : DB) (e : Ev) (what : String) : Except String DB :=
+  match stepD o s e with
+  | some s' => .ok s'
+  | none => .error s!"model-event-not-enabled({what})"
+
+/-- Feed sends (in order) until the model's pending request reads `val`.
+    Returns the state, the unused sends and the offer times of the first / last event of the batch. -/
+def feedUntil (o : DOpts) (val : String) (s : DB) (tFirst : Option Nat) :
+    List (View × Nat) → Except String (DB × List (View × Nat) × Nat × Nat)
+  | [] => .error "push-is-not-the-in-order-merge-of-the-updates-since-the-last-push"
+  | (v, t) :: rest =>
+    match stepE o s (.recv v) "recv" with
+    | .error e => .error e
+    | .ok s' =>
+      if s'.edsPushed.length > s.edsPushed.length then feedUntil o val s' tFirst rest
+      else
+        let tF := tFirst.getD t
+        if (s'.req.map showViewCanon) == some val then .ok (s', rest, tF, t)
+        else feedUntil o val s' (some tF) rest
+
+/-- Hidden events that make a free-or-finishing loop hand the pending request to pushFn. -/
+def forcePush (o : DOpts) (s : DB) : Except String DB := do
+  let s1 ← if s.running.isEmpty then pure s else stepE o s .pushReturn "pushReturn"
+  if s1.freeTok then
+    let s2 ← stepE o s1 (.tick (o.after + o.max)) "tick"
+    stepE o s2 .freeRecv "freeRecv"
+  else match s1.timerAt with
+    | some t =>
+      let s2 ← stepE o s1 (.tick (t + o.after + o.max)) "tick"
+      stepE o s2 .timer "timer"
+    | none => .error "pending-request-without-wake-up"
+
+/-- `pushWorker`'s guard on observed times (µs; options are ms). -/
+def dueAt (o : DOpts) (tFirst tLast tPush : Nat) : Bool :=
+  (pushWorker { after := o.after * 1000, max := o.max * 1000, eds := o.eds }
+    { now := tPush, start := tFirst, last := tLast, req := some {} }).req.isNone
+
+def acceptPushes (o : DOpts) : DB → List (View × Nat) → List (String × Nat) → Except String (DB × List (View × Nat))
+  | s, sends, [] => .ok (s, sends)
+  | s, sends, (val, tPush) :: more => do
+    let (s1, rest, tF, tL) ← feedUntil o val s none sends
+    if !dueAt o tF tL tPush then
+      throw s!"pushed-before-the-quiet-period(first={tF},last={tL},push={tPush})"
+    let n := s1.pushed.length
+    let s2 ← forcePush o s1
+    if s2.pushed.length != n + 1 || (s2.pushed.getLast?.map showViewCanon) != some val then
+      throw "model-did-not-push-the-observed-request"
+    acceptPushes o s2 rest more
+
+def feedAll (o : DOpts) : DB → List (View × Nat) → Except String DB
+  | s, [] => .ok s
+  | s, (v, _) :: rest => do
+    let s' ← stepE o s (.recv v) "recv"
+    feedAll o s' rest
+
+def sortStr (l : List String) : List String := l.mergeSort (fun a b => !(b < a))
+
+def singleFlightLog : Nat → List TEv → Bool
+  | _, [] => true
+  | n, .push _ _ :: es => n == 0 && singleFlightLog 1 es
+  | n, .ret :: es => n == 1 && singleFlightLog 0 es
+  | n, _ :: es => singleFlightLog n es
+
+def acceptTrace (o : DOpts) (h : Heap) (toks : List String) : String :=
+  match toks.mapM parseTEv with
+  | none => "reject:unparsable-trace"
+  | some evs =>
+    if !singleFlightLog 0 evs then "reject:two-debounced-pushes-in-flight" else
+    let sends? := (evs.filterMap (fun e => match e with | .send i t => some (i, t) | _ => none)).mapM
+      (fun (it : Nat × Nat) => (viewAt h (some it.1)).map (fun v => (v, it.2)))
+    match sends? with
+    | none => "reject:unknown-request-in-trace"
+    | some sends =>
+      let pushes := evs.filterMap (fun e => match e with | .push v t => some (v, t) | _ => none)
+      let byp := sortStr (evs.filterMap (fun e => match e with | .eds v => some v | _ => none))
+      let sent := (evs.filterMap (fun e => match e with | .sent n => some n | _ => none)).head?
+      let res : Except String String := do
+        let (s1, rest) ← acceptPushes o {} sends pushes
+        let s2 ← feedAll o s1 rest
+        if s2.req.isSome then throw "update-still-pending-in-the-model-after-the-last-observed-push"
+        let f := drain o (4 * s2.recvd.length + 8) s2
+        if sortStr (f.edsPushed.map showViewCanon) != byp then throw "bypass-pushes-differ"
+        if some f.sent != sent then throw s!"committed-count(model={f.sent})"
+        pure s!"accept pushes={pushes.length} bypass={byp.length} events={f.recvd.length}"
+      match res with
+      | .ok m => m
+      | .error e => s!"reject:{e}"
+
 def stepDebounce (s : DState) (toks : List String) : DState × String :=
   match toks with
+  | "trace" :: evs => (s, acceptTrace s.dopts s.heap evs)
   | ["send", r] =>
     match parseRefDecl s.heap.reqs.length r with
     | some (some i) =>
@@ -206,7 +334,7 @@ def stepDebounce (s : DState) (toks : List String) : DState × String :=
     let facts := (f.pushed ++ f.edsPushed).flatMap factStrings
     let quiet := f.req.isNone && f.running.isEmpty && f.edsRunning.isEmpty && !f.freeTok
     ({ s with db := f },
-     s!"facts={encSet facts} events={f.recvd.length} sent={f.sent} quiescent={boolTok quiet} single=1 batches=1 unmutated=1")
+     s!"facts={encSet facts} events={f.recvd.length} sent={f.sent} quiescent={boolTok quiet} single=1 batches=1 unmutated=1 verdict=OK")
   | _ => stepQueue s toks
 
 /-! ### stream `sender`
@@ -219,6 +347,7 @@ def sortNat (l : List Nat) : List Nat := l.mergeSort (fun a b => a ≤ b)
 
 def showSender (n : Nat) (s : Sender) : String :=
   let q := if s.q.queue.isEmpty then "-" else ",".intercalate ((sortNat s.q.queue).map toString)
+  if s.loop == .crashed then "crashed" else
   let exited := s.loop == .exitedStop || s.loop == .exitedShutdown
   -- once the server is stopping / the queue shutting down, which re-queued mail is still picked up
   -- depends on the order in which parked pushes take their exits: not compared
@@ -237,6 +366,7 @@ def stepSender (s0 : DState) (toks : List String) : DState × String :=
   -- the heap of declarations is authoritative until the queue allocates
   let s : DState := { s0 with snd := { s0.snd with q := { s0.snd.q with heap := s0.heap } } }
   let fin := fun (x : Sender) => ({ s with snd := x, heap := x.q.heap }, showSender s.nconn x)
+  if s.snd.loop == .crashed then (s0, if toks == ["end"] then "crashed verdict=OK" else "crashed") else
   match toks with
   | ["start"] =>
     if s.started then (s, "bad-op") else
@@ -274,7 +404,7 @@ def stepSender (s0 : DState) (toks : List String) : DState × String :=
     let x2 := settleIf s.started (applyAll x1 ((List.range s.nconn).map SEv.close))
     let x3 := settleIf s.started (applyAll x2 [.stop])
     let x4 := settleIf s.started (applyAll x3 [.shut])
-    fin x4
+    ({ s with snd := x4, heap := x4.q.heap }, showSender s.nconn x4 ++ " verdict=OK")
   | _ => stepMerge s toks
 
 def step (s : DState) (toks : List String) : DState × String :=
